@@ -50,7 +50,7 @@ _WIRE = JsonSerializer()
 
 def rx(sess, msg):
     """what the router sends reaches the session the way it would on a wire: serialised and parsed again"""
-    wire = getattr(sess._transport, "_serializer", None) or _WIRE
+    wire = getattr(sess.transport, "_serializer", None) or _WIRE
     data, _ = wire.serialize(msg)
     sess.onMessage(wire.unserialize(data)[0])
 
@@ -373,7 +373,7 @@ def one(dir_, layout, fault, shape, pos, rng):
             obs["encOnWire"] = all(enc)
             obs["clearOnWire"] = any(clear)
         # sessions alive: still joined, transports not closed
-        obs["alive"] = A._session_id is not None and B._session_id is not None and not getattr(ta, "closed", False) and not getattr(tb, "closed", False)
+        obs["alive"] = A.session_id is not None and B.session_id is not None and not getattr(ta, "closed", False) and not getattr(tb, "closed", False)
     except Exception as e:  # noqa
         obs["esc"] = type(e).__name__ + ":" + str(e)[:80]
     fw.reset()
@@ -445,7 +445,7 @@ def unenc(dir_, layout, shape, pos, A, ta, B, tb, uri, obs):
     obs["clearOnWire"] = leaked()
     obs["encOnWire"] = not obs["clearOnWire"]
     obs["delivered"] = "none" if (dir_ in ("publish", "call") and not got.get("calls")) or dir_ in ("result", "error") and obs["call"] != "ok" else "altered"
-    obs["alive"] = A._session_id is not None and B._session_id is not None and not getattr(ta, "closed", False) and not getattr(tb, "closed", False)
+    obs["alive"] = A.session_id is not None and B.session_id is not None and not getattr(ta, "closed", False) and not getattr(tb, "closed", False)
     fw.reset()
     return dict(ev="e2e", dir=dir_, layout=layout, fault="unencodable", pos=pos, shape=repr(shape)[:50], obs=obs)
 
